@@ -36,6 +36,7 @@ callers.
 #* "warning_cls_on_decorator_exception".
 
 # ....................{ IMPORTS                            }....................
+from beartype.roar import BeartypeConfParamException
 from beartype.roar._roarwarn import (
     _BeartypeConfReduceDecoratorExceptionToWarningDefault)
 from beartype._conf.confenum import (
@@ -883,8 +884,45 @@ class BeartypeConf(object):
             # If this method has already instantiated a configuration with these
             # parameters, return that configuration for consistency and
             # efficiency.
-            if conf_args in _beartype_conf_args_to_conf:
-                return _beartype_conf_args_to_conf[conf_args]
+            #
+            # Note that:
+            # * One or more of these parameters may be unhashable (e.g.,
+            #   "hint_overrides={}" erroneously passed as a "dict" rather than
+            #   "FrozenDict"), in which case this lookup raises a
+            #   non-human-readable "TypeError". In this case, defer to the
+            #   validation performed below to raise a human-readable exception.
+            # * A cached configuration is returned *ONLY* if the parameters that
+            #   configuration was instantiated with are of the exact same types
+            #   as these parameters. Python considers values of differing types
+            #   to be equal (e.g., "1 == True"), in which case an invalid
+            #   parameter (e.g., "is_debug=1") would otherwise erroneously
+            #   return a configuration previously instantiated with an equal
+            #   valid parameter (e.g., "is_debug=True") rather than raise the
+            #   expected exception. In this case, these parameters are validated
+            #   below *BEFORE* that configuration is returned.
+            conf_cached: Optional['BeartypeConf'] = None
+            is_conf_args_hashable = True
+            try:
+                conf_cached = _beartype_conf_args_to_conf.get(conf_args)
+            except TypeError:
+                is_conf_args_hashable = False
+
+            if conf_cached is not None:
+                # Parameters this cached configuration was instantiated with.
+                conf_cached_args = conf_cached._conf_args
+
+                # If all of these parameters are of the exact same types, return
+                # this cached configuration as is.
+                for conf_args_index in range(len(conf_args)):
+                    if (
+                        conf_args[conf_args_index].__class__ is not
+                        conf_cached_args[conf_args_index].__class__
+                    ):
+                        break
+                else:
+                    return conf_cached
+                # Else, one or more of these parameters are of differing types.
+                # In this case, validate these parameters below.
             # Else, this method has *NOT* yet instantiated a configuration with
             # these parameters. In this case, continue to do so and then cache
             # that configuration.
@@ -922,8 +960,43 @@ class BeartypeConf(object):
             die_if_conf_kwargs_invalid(conf_kwargs)
             # Else, all passed parameters are valid.
 
+            # If one or more passed parameters are unhashable, this
+            # configuration is uncacheable. Raise a human-readable exception.
+            if not is_conf_args_hashable:
+                raise BeartypeConfParamException(
+                    f'Beartype configuration parameters {repr(conf_kwargs)} '
+                    f'unhashable (e.g., "claw_skip_package_names" passed as a '
+                    f'mutable list or set rather than immutable tuple or '
+                    f'frozen set).'
+                )
+            # Else, all passed parameters are hashable.
+            #
+            # If a configuration was previously instantiated with parameters
+            # equal to but of differing types than these valid parameters (e.g.,
+            # a tuple subclass), return that configuration.
+            elif conf_cached is not None:
+                return conf_cached
+            # Else, *NO* such configuration was previously instantiated.
+
             # Sanify all passed parameters *AFTER* validating these parameters.
             sanify_conf_kwargs(conf_kwargs)
+
+            # Hashable tuple of these sanified parameters in the same order as
+            # the "conf_args" tuple, serving as the canonical key of this
+            # configuration. This key guarantees that re-instantiating a
+            # configuration from the "kwargs" property of that configuration
+            # (which exposes these sanified rather than passed parameters)
+            # returns the same configuration.
+            conf_args_sane = tuple(conf_kwargs.values())
+
+            # If this method has already instantiated a configuration with these
+            # sanified parameters, additionally cache that configuration under
+            # these passed parameters and return that configuration.
+            conf_cached = _beartype_conf_args_to_conf.get(conf_args_sane)
+            if conf_cached is not None:
+                _beartype_conf_args_to_conf[conf_args] = conf_cached
+                return conf_cached
+            # Else, this method has *NOT* yet instantiated such a configuration.
 
             # ..................{ INSTANTIATE                }..................
             # Instantiate a new configuration of this type.
@@ -962,6 +1035,7 @@ class BeartypeConf(object):
             # Cache this configuration with all relevant dictionary singletons
             # *BEFORE* possibly modifying the values of passed parameters below.
             _beartype_conf_args_to_conf[conf_args] = self
+            _beartype_conf_args_to_conf[conf_args_sane] = self
 
             # ..................{ CLASSIFY                   }..................
             # Classify all passed parameters that have now been possibly
